@@ -513,7 +513,9 @@ pub fn replay_case<P: Property>(p: &P, path: &Path) -> i32 {
 
 /// run a case; for a probabilistic class return a failing report only if it fails at least twice in four tries
 fn run_for<P: Property>(p: &P, case: &P::Case, class: &str, cause: &str, flaky: bool) -> Report {
-    let same = |r: &Report| r.violation.as_ref().map(|v| v.class == class && v.cause == cause).unwrap_or(false);
+    // a probabilistic violation may surface through different observations (causes) from run to run
+    let same = |r: &Report| r.violation.as_ref().map(|v| v.class == class).unwrap_or(false);
+    let _ = cause;
     if !flaky {
         return p.run(case);
     }
@@ -551,7 +553,7 @@ fn minimise<P: Property>(p: &P, case: &P::Case, class: &str, cause: &str) -> (P:
             attempts += 1;
             let r = run_for(p, &cand, class, cause, flaky);
             if let Some(v) = &r.violation {
-                if v.class == class && v.cause == cause {
+                if v.class == class && (flaky || v.cause == cause) {
                     cur = cand;
                     cur_rep = r;
                     continue 'outer;
@@ -919,11 +921,11 @@ pub fn check<P: Property>(p: &P, tier: Tier) -> i32 {
         let flaky = p.flaky_class(class);
         let mut rep0 = p.run(&case);
         let mut tries = 0;
-        while flaky && tries < 40 && rep0.violation.as_ref().map(|v| (&v.class, &v.cause)) != Some((class, cause)) {
+        while flaky && tries < 40 && rep0.violation.as_ref().map(|v| &v.class) != Some(class) {
             rep0 = p.run(&case);
             tries += 1;
         }
-        if rep0.violation.as_ref().map(|v| (&v.class, &v.cause)) != Some((class, cause)) {
+        if rep0.violation.as_ref().map(|v| (&v.class, flaky || &v.cause == cause)) != Some((class, true)) {
             harness_error = Some(format!(
                 "violation {}/{} of run {}#{} did not reproduce in-process: {:?}",
                 class, cause, bname, idx, rep0.violation
@@ -932,7 +934,7 @@ pub fn check<P: Property>(p: &P, tier: Tier) -> i32 {
         }
         let lit = p.literalize(&case, &rep0);
         let lit_rep = run_for(p, &lit, class, cause, flaky);
-        let start = if lit_rep.violation.as_ref().map(|v| (&v.class, &v.cause)) == Some((class, cause)) {
+        let start = if lit_rep.violation.as_ref().map(|v| (&v.class, flaky || &v.cause == cause)) == Some((class, true)) {
             lit
         } else {
             case.clone()
@@ -942,7 +944,7 @@ pub fn check<P: Property>(p: &P, tier: Tier) -> i32 {
             // literal tape for the minimised case as well
             let l = p.literalize(&min_case, &min_rep);
             let r = run_for(p, &l, class, cause, flaky);
-            if r.violation.as_ref().map(|v| (&v.class, &v.cause)) == Some((class, cause)) {
+            if r.violation.as_ref().map(|v| (&v.class, flaky || &v.cause == cause)) == Some((class, true)) {
                 l
             } else {
                 min_case
@@ -990,7 +992,7 @@ pub fn check<P: Property>(p: &P, tier: Tier) -> i32 {
                 so.lines().any(|l| {
                     l.starts_with("REPLAY")
                         && l.contains(&format!("class={} ", class))
-                        && l.contains(&format!("cause={} ", cause))
+                        && (flaky || l.contains(&format!("cause={} ", cause)))
                 })
             }
             Err(_) => false,
@@ -1166,6 +1168,10 @@ pub fn check<P: Property>(p: &P, tier: Tier) -> i32 {
     );
     if let Some(e) = harness_error {
         eprintln!("HARNESS-ERROR property={} {}", p.id(), e);
+        if exit == 1 {
+            // a violation was found, minimised and re-verified in a fresh process: that verdict stands
+            return 1;
+        }
         return 2;
     }
     exit
